@@ -288,6 +288,34 @@ def toI64 (f : Fmt) (a : F) : Int :=
   | some z => if -(2 ^ 63 : Int) ≤ z ∧ z < (2 ^ 63 : Int) then z else -(2 ^ 63 : Int)
   | none => -(2 ^ 63 : Int)
 
+/-- `static_cast<uint64_t>(double)` as g++ emits it for x86-64: below 2^63 (and for NaN, which compares unordered)
+    `cvttsd2si`, otherwise `cvttsd2si(x − 2^63) xor 2^63` (so 2^64 ↦ 0, +inf ↦ 0); the result as a 64-bit pattern
+    (flipping bit 63 of a 64-bit pattern = adding 2^63 modulo 2^64). -/
+def toU64 (f : Fmt) (a : F) : Nat :=
+  match a with
+  | .nan => 2 ^ 63
+  | .inf s => if s then 2 ^ 63 else 0
+  | _ =>
+    match truncInt f a with
+    | some z =>
+      if z < (2 ^ 63 : Int) then ofSigned 64 (toI64 f a)
+      else
+        let t := z - (2 ^ 63 : Int)
+        let c : Int := if t < (2 ^ 63 : Int) then t else -(2 ^ 63 : Int)
+        (ofSigned 64 c + 2 ^ 63) % 2 ^ 64
+    | none => 2 ^ 63
+
+/-- `std::trunc(x) == x` as a comparison of doubles: finite integers and ±inf (NaN compares false). -/
+def isIntegral (f : Fmt) : F → Bool
+  | .fin _ n => n % 2 ^ f.q == 0
+  | .inf _ => true
+  | .nan => false
+
+/-- `x - std::trunc(x)`: the fraction of a finite value (exact, with the sign of `x`); `inf − inf` and NaN give NaN. -/
+def fracPart (f : Fmt) : F → F
+  | .fin s n => .fin s (n % 2 ^ f.q)
+  | _ => .nan
+
 /-- wrap to a signed 64-bit integer. -/
 def wrapI64 (z : Int) : Int :=
   let m := z % (2 ^ 64 : Int)
